@@ -87,6 +87,9 @@ impl XRefTable {
     pub fn push(&mut self, new_entry: XRef) {
         self.entries.push(new_entry);
     }
+    pub fn pop(&mut self) -> Option<XRef> {
+        self.entries.pop()
+    }
     pub fn num_entries(&self) -> usize {
         self.entries.len()
     }
